@@ -481,13 +481,13 @@ def record_scale(sc):
             exc = type(e).__name__
             break
     while len(wk) < 2:
-        wk.append({"j": 1, "calls": [], "minread": -1, "lines": 0, "hist": 0})
+        wk.append({"j": 1, "calls": [], "minread": -1, "lines": 0, "mlines": 0, "hist": 0})
     c = sc["inds"][0]
     if sc["obj"] == "ind":
         mg = [mgr_cfg("default", c.timeframe, c.fill, c.lifespan, c.ctype)]
         inds = [dict(c.spec(ses.live.get(0, "") if ses else ""), act=1)]
     else:
-        mg = [mgr_cfg("default", None, False, None, None)]
+        mg = [mgr_cfg("default", None, False, sc.get("hex", {}).get("lifespan"), None)]
         inds = [dict(x.spec(ses.live.get(i, "") if ses else ""), act=1) for i, x in enumerate(sc["inds"])]
     ev = {"op": "scale", "a": 0, "b": 0, "nm": "", "idx": 0, "exc": exc, "bt": [], "ob": {"at": [], "ai": 0, "orph": 0},
           "rd": [], "ab": [], "aa": [], "wk": wk, "m": [{"drop": 0, "len": 0, "d": []}]}
